@@ -134,7 +134,11 @@ func (b *bridge) rtypeOf(t types.Type) reflect.Type {
 			}
 			sf := reflect.StructField{Name: f.Name(), Type: b.rtypeOf(f.Type()), Tag: reflect.StructTag(u.Tag(k))}
 			if f.Anonymous() && b.mode == modeJSON {
-				if _, isStruct := f.Type().Underlying().(*types.Struct); isStruct && namedKey(f.Type()) != "time.Time" {
+				et := f.Type()
+				if p, ok := et.Underlying().(*types.Pointer); ok {
+					et = p.Elem()
+				}
+				if _, isStruct := et.Underlying().(*types.Struct); isStruct && namedKey(et) != "time.Time" {
 					sf.Anonymous = true
 				}
 			}
